@@ -116,6 +116,15 @@ let () =
       if String.trim line = "" then print_endline ""
       else begin
         let parts = String.split_on_char ';' line |> List.map String.trim |> List.filter (fun x -> x <> "") in
+        if String.length line > 6 && String.sub line 0 6 = "@lock " then begin
+          (* the lock-file protocol (Mani/Lock.v lock_run): events <pid>l / <pid>u *)
+          let evs = words (String.sub line 6 (String.length line - 6)) in
+          let calls = List.map (fun ev ->
+            let p = nat_of_int (int_of_string (String.sub ev 0 (String.length ev - 1))) in
+            if ev.[String.length ev - 1] = 'l' then CLock p else CUnlock p) evs in
+          print_endline (String.concat " " (List.map (function
+            | LGot -> "got" | LNone -> "none" | LOk -> "ok" | LNoHandle -> "nohandle") (lock_run calls)))
+        end else
         match parts with
         | hd :: ops when String.length hd > 6 && String.sub hd 0 6 = "ratio=" ->
             let ratio = n_of_int (int_of_string (String.sub hd 6 (String.length hd - 6))) in
